@@ -23,7 +23,7 @@ SPEC = {
                   "is safe' is the RWMutex, atomic in the model; both tiers run Subscribe concurrently with a watcher that is inside notify practically all the time "
                   "(watchdog), the thorough tier additionally concurrent Subscribe/notify/end under -race (tests). Go map iteration order across different subscribers is not modelled (each subscriber's own channel is).",
     "drivers": [
-        {"pkg": "internal/netstate", "test": "TestVerifC19", "timeout": 900},
+        {"pkg": "internal/netstate", "test": "TestVerifC19", "timeout": {"quick": 300, "thorough": 900}},
         {"pkg": "internal/netstate", "test": "TestVerifC19Race", "timeout": 900, "race": True, "tiers": ["thorough"]},
     ],
     "rule": "each case is a script run on a fresh real Watcher with the watch hook injected: (1) every one of the 127 masks x 7 "
